@@ -190,8 +190,8 @@ PROPS = {
         "level": "exploration",
         "world": "B: authorization-server node and client node, complete real RFC021 service-to-service flow over the simulated HTTP transport",
         "rule": "each run: one scenario - a valid request, or exactly one named defect applied through the workload (revoked / expired credential, credential "
-                "about another subject, unknown scope, scope the wallet cannot fulfil), in transit (assertion signature or claim, submission definition id or "
-                "path, scope parameter, delivery delayed 20 s past the 5 s validity, duplicate delivery, delivery to another subject's token endpoint), or a "
+                "about another subject, unknown scope, scope the wallet cannot fulfil, scope string with two values of which one cannot be fulfilled), in transit (assertion signature or claim, submission definition id or "
+                "path, scope parameter, delivery delayed 20 s past the 5 s validity, duplicate delivery - unchanged or with another / no / extended client_id -, delivery to another subject's token endpoint), or a "
                 "scope whose policy maps a credential field onto a reserved claim name - with bearer or DPoP tokens; the authorization-code grant (OpenID4VP user flow, "
                 "the workload plays the browser): untouched, wallet answer rewritten into two presentations of which the first does not verify, and the token "
                 "request of the code grant changed in transit (PKCE verifier extended / shortened / replaced by the challenge / of another session / removed / "
